@@ -72,7 +72,7 @@ pub open spec fn fp_key(ct: ContextRuleType, signers: Seq<Signer>, policies: Seq
 }
 pub open spec fn w_call(w: World, c: Call) -> World { World { calls: w.calls.push(c), ..w } }
 /// equal up to the opaque state of other contracts
-pub open spec fn eq_but_ext(w2: World, w: World) -> bool { w2 == (World { ext: w2.ext, ..w }) }
+pub open spec fn eq_but_ext(w2: World, w: World) -> bool { w2 =~~= (World { ext: w2.ext, ..w }) }
 
 pub open spec fn limits_ok(signers: Seq<Signer>, policies: Seq<Address>) -> bool {
     signers.len() <= MAX_SIGNERS && policies.len() <= MAX_POLICIES && !(signers.len() == 0 && policies.len() == 0)
